@@ -425,7 +425,7 @@ TRUSTED_BASE = [
 
 
 def standard_flow(ctx, feat, gen_cases, oracle=None, nontrivial=None, classify=None, describe=None,
-                  model=True, extra=None, rule="", regen=None):
+                  model=True, extra=None, rule="", regen=None, batch_oracle=None):
     """The common flow. gen_cases(ctx) -> list of case lines.
     oracle(case, impl_out) -> None if fine else a string describing the failure.
     classify(case, impl_out, failure) -> known-finding dict or None."""
@@ -462,13 +462,14 @@ def standard_flow(ctx, feat, gen_cases, oracle=None, nontrivial=None, classify=N
     disagreements = []
     failures = []
     kfs = known_findings(ctx.pid)
-    for c, i, m in zip(lines, impl, mod):
+    verdicts = batch_oracle(ctx, lines, impl) if batch_oracle else None
+    for idx, (c, i, m) in enumerate(zip(lines, impl, mod)):
         if nontrivial is None or nontrivial(c):
             nt += 1
         if i != m:
             disagreements.append((c, i, m))
-        if oracle is not None:
-            f = oracle(c, i)
+        if oracle is not None or verdicts is not None:
+            f = verdicts[idx] if verdicts is not None else oracle(c, i)
             if f:
                 k = classify(c, i, f, kfs) if classify else None
                 if k:
@@ -484,6 +485,10 @@ def standard_flow(ctx, feat, gen_cases, oracle=None, nontrivial=None, classify=N
                                "model": mod[k][:300]})
     if extra:
         extra(ctx, failures)
+    with open(os.path.join(ctx.work, "failures.json"), "w") as f:
+        json.dump({"oracle_failures": [(describe(c) if describe else c, i[:200], v) for c, i, v in failures[:2000]],
+                   "disagreements": [(describe(c) if describe else c, i[:300], m[:300]) for c, i, m in disagreements[:2000]]},
+                  f, indent=1, ensure_ascii=False)
     for c, i, f in failures[:3]:
         ctx.violation({"kind": "oracle-failure", "case": c, "case_readable": describe(c) if describe else c,
                        "impl_output": i, "verdict": f})
